@@ -84,7 +84,7 @@ LABELS = [[3, 7, 1, 9, 4, 6], [10, 11, 12, 13, 14, 15], [5, 2, 8, 0, 6, 1]]
 SCORES = [(-1.0, 0.0, 2.0), (0.5, 1.5, 4.0), (-3.0, -0.5, 1.0)]
 UNIT = [1.0, 0.5, 2.0]
 PAIRS = ("adj", "ends", "par")
-CONS = ("none", "ineq", "eq", "both", "infeasible")
+CONS = ("none", "ineq", "eq", "both", "infeasible", "quota")
 
 
 def pair_table(kind, n, u):
@@ -131,6 +131,9 @@ def constraints(kind, n):
         d["ineq_wt"] = [2.0]
     elif kind == "infeasible":
         d["ineq"] = [dict(w=[1, 2, 1, 2, 1, 2][:n], cap=0)]
+    elif kind == "quota":          # two unmeetable count-valued quotas: every decision is infeasible with the SAME total
+        #                            violation (k) but its own per-component split -> every exchange is a violation tie
+        d["ineq"] = [dict(w=[1, 0, 1, 0, 1, 0][:n], cap=0), dict(w=[0, 1, 0, 1, 0, 1][:n], cap=0)]
     return d
 
 
@@ -265,7 +268,7 @@ def _l1_groups(tier):
                     if k == 2:
                         nalpha = 2
                     if k == 3:
-                        nalpha, oks, cns = 2, ("sep", "adj", "par"), ("none", "ineq", "both")
+                        nalpha, oks, cns = 2, ("sep", "adj", "par"), ("none", "ineq", "both", "quota")
             g.append((n, k, nalpha, oks, cns))
     return g
 
